@@ -178,7 +178,33 @@ func registerVerifAPI(m *Machine) {
 		return nil
 	}
 	// IsFreshRandom(b): every byte is a distinct symbol produced by the randomness model.
+	// Structural predicates look at the symbolic terms; a concrete replay has no terms,
+	// so the verdict of the symbolic run is recorded as a pseudo input ("struct!N") in
+	// the counterexample and read back when it is replayed.
+	structural := func(m *Machine, verdict func() *Term) *Term {
+		name := m.freshName("struct!pred")
+		if m.P.concrete != nil {
+			if v, ok := m.P.concrete[name]; ok && v.Sign() == 0 {
+				return FalseT
+			}
+			return TrueT
+		}
+		r := verdict()
+		val := uint64(0)
+		if r.IsTrue() {
+			val = 1
+		}
+		m.P.inputs = append(m.P.inputs, Input{Name: name, T: Const(1, val), Kind: "structural"})
+		return r
+	}
+	_ = structural
 	N[P+"IsFreshRandom"] = func(m *Machine, fr *Frame, a []Value) Value {
+		return structural(m, func() *Term { return isFreshRandom(a[0].(Slice)) })
+	}
+	N[P+"FreeOf"] = func(m *Machine, fr *Frame, a []Value) Value {
+		return structural(m, func() *Term { return freeOf(a[0].(Slice), a[1].(Slice)) })
+	}
+	N[P+"isFreshRandomOld"] = func(m *Machine, fr *Frame, a []Value) Value {
 		if m.P.concrete != nil {
 			return TrueT
 		}
@@ -193,7 +219,7 @@ func registerVerifAPI(m *Machine) {
 		return Bool(len(seen) > 0)
 	}
 	// FreeOf(wire, secret): no symbol of secret occurs in wire.
-	N[P+"FreeOf"] = func(m *Machine, fr *Frame, a []Value) Value {
+	N[P+"freeOfOld"] = func(m *Machine, fr *Frame, a []Value) Value {
 		if m.P.concrete != nil {
 			return TrueT
 		}
@@ -305,4 +331,35 @@ func (m *Machine) observeString(fr *Frame, v Value) string {
 		return s
 	}
 	return iv.T.String()
+}
+
+func isFreshRandom(sl Slice) *Term {
+	seen := map[*Term]bool{}
+	for _, c := range sl.A {
+		t := c.(*Term)
+		if t.Op != OpVar || !strings.HasPrefix(t.Name, "rand") || seen[t] {
+			return FalseT
+		}
+		seen[t] = true
+	}
+	return Bool(len(seen) > 0)
+}
+
+func freeOf(wire, secret Slice) *Term {
+	sv := map[*Term]bool{}
+	seen := map[*Term]bool{}
+	for _, c := range secret.A {
+		c.(*Term).Vars(sv, seen)
+	}
+	wv := map[*Term]bool{}
+	seen = map[*Term]bool{}
+	for _, c := range wire.A {
+		c.(*Term).Vars(wv, seen)
+	}
+	for v := range sv {
+		if wv[v] {
+			return FalseT
+		}
+	}
+	return TrueT
 }
